@@ -5,6 +5,7 @@ import (
 	"math/big"
 	"runtime/metrics"
 	"strings"
+	"sync"
 
 	wire "github.com/jeroenrinzema/psql-wire"
 
@@ -20,7 +21,7 @@ type c20 struct{ base }
 func init() {
 	core.Register(c20{base{id: "C20", level: "exploration", quickB: 8, thoroughB: 32,
 		rule: "query strings: exhaustive over all marker sequences of length <= 4 from {$0,$1,$2,$3,$5,$9,$10,?} with 3 separators; huge indexes {65534,65535,65536,2^31,2^32,2^63-1,2^63,2^64,40 digits}; random SQL-like text with quotes, $$, $x, $1a, unicode. ParseParameters is called directly in an isolated child process (crash oracle) with a TotalAlloc delta bound, compared with an independent hand-written scanner (big-integer indexes), and through the wire: Parse + Describe-statement must announce exactly the returned length. Non-trivial = has a gap, descending or repeated index, index above marker count, huge index or mixed styles; distinct = normalised marker sequence.",
-		need:        []string{"direct_calls", "dollar_only_compared", "question_only_compared", "huge_index_queries", "describe_counts_compared", "gap_or_descending"},
+		need:        []string{"direct_calls", "dollar_only_compared", "question_only_compared", "huge_index_queries", "describe_counts_compared", "gap_or_descending", "concurrent_call_rounds"},
 		assumptions: append([]string{"mixed $n/? queries and indexes above 65535 are judged for totality, result size <= 65535, zero OIDs and bounded allocation only"}, commonAssumptions...)}})
 }
 
@@ -92,6 +93,10 @@ func (ch c20) queries(c *core.Ctx) []string {
 			}
 		}
 	}
+	for n := 0; n <= 40; n++ {
+		qs = append(qs, "values ("+strings.Repeat("?, ", n)+"?)", strings.Repeat("?", n))
+	}
+	qs = append(qs, "$65535 ?", "? $65535", "$65534 ? ?", "$65535 $65535 ? ? ?", strings.Repeat("?", 65535), strings.Repeat("?", 65536), "$1 "+strings.Repeat("?", 65535))
 	qs = append(qs, "", "$", "$$", "$$ $1 $$", "?", "??", "$1$2", "$1a", "$a1", "'$1'", "\"?\"", "$-1", "$+1", "$ 1", "$１", "ü$1é?", "$1?$2?", strings.Repeat("?", 70000), strings.Repeat("$1 ", 30000), strings.Repeat("$", 5000)+"7")
 	nrand := 120000
 	if c.Tier == "thorough" {
@@ -194,8 +199,8 @@ func (ch c20) Run(c *core.Ctx) {
 			c.Violate("alloc", "allocation not bounded by the 65535-parameter limit", fmt.Sprintf("query %q allocated %d bytes (bound %d)", trim(q, 100), delta, bound), cs)
 			continue
 		}
-		if len(res) > 65535+nq { // every ? marker legitimately adds one placeholder
-			c.Violate("size", "result longer than 65535 + number of ? markers", fmt.Sprintf("query %q: %d parameters", trim(q, 100), len(res)), cs)
+		if len(res) > 65535 { // the protocol cannot count more parameters
+			c.Violate("size", "result longer than the protocol's 65535-parameter limit", fmt.Sprintf("query %q: %d parameters", trim(q, 100), len(res)), cs)
 			continue
 		}
 		nonzero := false
@@ -215,9 +220,9 @@ func (ch c20) Run(c *core.Ctx) {
 				c.Violate("count-positional", fmt.Sprintf("length != highest index (markers %s)", trim(c20norm(q), 60)), fmt.Sprintf("query %q: returned %d parameters, highest index %s", trim(q, 100), len(res), maxIdx), cs)
 				continue
 			}
-		case nq > 0 && nd == 0 && nq <= 65535:
+		case nq > 0 && nd == 0:
 			c.Count("question_only_compared", 1)
-			if len(res) != nq {
+			if len(res) != min(nq, 65535) {
 				c.Violate("count-anonymous", "length != number of ? markers", fmt.Sprintf("query %q: returned %d parameters, %d markers", trim(q, 100), len(res), nq), cs)
 				continue
 			}
@@ -248,4 +253,41 @@ func (ch c20) Run(c *core.Ctx) {
 		}
 	}
 	cl.Finish()
+	// concurrent callers (several connections preparing the same fresh text at once use the
+	// function concurrently): every caller must get the full answer
+	rounds := 150
+	if c.Tier == "thorough" {
+		rounds = 3000
+	}
+	for r := 0; r < rounds; r++ {
+		if !c.Begin(50000000+r) || c.NViol() >= 10 {
+			continue
+		}
+		n := 1 + (r*7+c.Batch)%40
+		q := fmt.Sprintf("select fresh_%d_%d_%d where a = $%d and b = $1", c.Seed, c.Batch, r, n)
+		if r%3 == 0 {
+			q = fmt.Sprintf("select fresh_%d_%d_%d ", c.Seed, c.Batch, r) + strings.Repeat("?,", n)
+		}
+		var wg sync.WaitGroup
+		got := make([]int, 8)
+		start := make(chan struct{})
+		for g := range got {
+			wg.Add(1)
+			go func(g int) {
+				defer wg.Done()
+				<-start
+				got[g] = len(wire.ParseParameters(q))
+			}(g)
+		}
+		close(start)
+		wg.Wait()
+		c.Count("concurrent_call_rounds", 1)
+		c.Eval(fmt.Sprintf("concurrent n=%d style=%d", n, r%3), true)
+		for g, l := range got {
+			if l != n {
+				c.Violate("concurrent", "concurrent callers get different answers for the same query text", fmt.Sprintf("query %q: caller %d of 8 got %d parameters, expected %d (all answers: %v)", q, g, l, n, got), map[string]any{"query": q})
+				break
+			}
+		}
+	}
 }
